@@ -75,11 +75,27 @@ def wrapper(ctx):
     ctx.check(prov == {("self.write", tstr(("a", src[0], "write"))), ("self.read", tstr(("a", snk[0], "read")))}, "C29.wrapper-methods", comp.site, "StreamModuleWrapper.provide", found=str(sorted(prov)), required="write provided by source.write, read by sink.read")
 
 
+def wrapper_order(ctx, pid="C29"):
+    """StreamSource.write is ready iff `~valid | ready`; StreamSink drives `ready` from read.run.  The wrapped module may
+    pass ready through combinationally (lib.stream allows it), so write's readiness may depend on read running: the
+    wrapper has to tell the scheduler (read before write), as Pipe does - otherwise conflicting reader and writer
+    transactions with the writer ordered first form a combinational loop through the grants (F9)."""
+    comp = Component(ctx.repo, REL, "StreamModuleWrapper", rule=pid)
+    ex = comp.configs[0]
+    objs = {tstr(o.ctor).split("(")[0]: ("obj", oid) for oid, o in ex.objects.items() if o.ctor[0] == "call"}
+    src_o, snk_o = objs.get("StreamSource"), objs.get("StreamSink")
+    rels = [r for r in ex.of(Relation) if r.kind == "schedule_before"]
+    ok = src_o is not None and snk_o is not None and any(r.subject == ("a", snk_o, "read") and r.args == (("a", src_o, "write"),) for r in rels)
+    ctx.check(ok, f"{pid}.wrapper-order", comp.site, "StreamModuleWrapper.order", found="; ".join(f"{tstr(r.subject)}.schedule_before({', '.join(tstr(a) for a in r.args)})" for r in rels) or "no ordering declared",
+              required="sink.read.schedule_before(source.write): write's readiness may depend on read.run through the wrapped module")
+
+
 def check(ctx):
     ctx.use(REL)
     source(ctx)
     sink(ctx)
     wrapper(ctx)
+    wrapper_order(ctx)
 
 
 MUTANTS = [
